@@ -440,3 +440,49 @@ Definition serial_cvc_items_err (c : cfg) (t : nat) : list sitem :=
 Definition smp_cvc_items_err (c : cfg) (t : nat) : list sitem :=
   let vs := prep_vars t (c_vars c) in
   concat (smp_cvc_work vs t) ++ map collect_item (active_vars t vs).
+
+(* ------------------------------------------------------------------------------------------- *)
+(* 11. Small steps: an item is a read phase, a computation and a write phase                     *)
+(* ------------------------------------------------------------------------------------------- *)
+(* [Rd i]: item i copies the store (what it will look at is its read set) into a private buffer; [Wr i]: it assigns
+   [act] of that buffer to its write set.  A trace is any sequence of such micro-operations; between the two phases of one
+   item the phases of other items (running on other threads) may occur. *)
+Inductive mop := Rd (i : nat) | Wr (i : nat).
+
+Section SmallStep.
+  Context {L V : Type}.
+  Variable eqb : L -> L -> bool.
+
+  Fixpoint lookup_buf (i : nat) (bufs : list (nat * (L -> V))) : option (L -> V) :=
+    match bufs with
+    | [] => None
+    | (j, b) :: r => if Nat.eqb j i then Some b else lookup_buf i r
+    end.
+  Definition remove_buf (i : nat) (bufs : list (nat * (L -> V))) : list (nat * (L -> V)) :=
+    filter (fun p => negb (Nat.eqb (fst p) i)) bufs.
+
+  Fixpoint mrun (items : list (item L V)) (tr : list mop) (s : L -> V) (bufs : list (nat * (L -> V))) : L -> V :=
+    match tr with
+    | [] => s
+    | Rd i :: r => mrun items r s ((i, s) :: bufs)
+    | Wr i :: r =>
+      mrun items r
+           (match nth_error items i, lookup_buf i bufs with
+            | Some a, Some b => fun l => if mem eqb l (writes a) then act a b l else s l
+            | _, _ => s
+            end)
+           (remove_buf i bufs)
+    end.
+End SmallStep.
+
+(* a trace is well formed when an item is read only while it is not in flight and written only while it is *)
+Fixpoint valid_trace (tr : list mop) (inflight : list nat) : Prop :=
+  match tr with
+  | [] => True
+  | Rd i :: r => ~ In i inflight /\ valid_trace r (i :: inflight)
+  | Wr i :: r => In i inflight /\ valid_trace r (filter (fun k => negb (Nat.eqb k i)) inflight)
+  end.
+(* the order in which the items commit *)
+Definition wr_order (tr : list mop) : list nat := flat_map (fun o => match o with Wr i => [i] | Rd _ => [] end) tr.
+(* what one thread does with its queue of items *)
+Definition thread_mops (q : list nat) : list mop := flat_map (fun i => [Rd i; Wr i]) q.
